@@ -264,6 +264,8 @@ class Module:
     def resolve(self, name, ctx):
         if name in self.env.vars:
             return self.env.vars[name]
+        if ctx is not None and (self.name, name) in ctx.module_consts:
+            return ctx.module_consts[(self.name, name)]
         ov = self.interp.overrides.get((self.name, name))
         if ov is not None:
             self.env.vars[name] = ov
@@ -274,6 +276,15 @@ class Module:
             self._loading.add(name)
             try:
                 st = self.defs[name]
+                if isinstance(st, (ast.Assign, ast.AnnAssign)) and ctx is not None:
+                    # module-level constants may carry path-local axioms (e.g. LOG_2 = log(2.0)):
+                    # evaluate once per path, never cache across paths
+                    tmp = Env(self.env, {})
+                    ex = Exec(self.interp, ctx, self, tmp, qual="")
+                    ex.stmt(st)
+                    for k, v in tmp.vars.items():
+                        ctx.module_consts[(self.name, k)] = v
+                    return ctx.module_consts[(self.name, name)]
                 ex = Exec(self.interp, ctx, self, self.env, qual="")
                 ex.stmt(st)
             finally:
@@ -397,6 +408,9 @@ class Interp:
                 pass
             except PathEnd:
                 pass
+            except OutsideSubset as e:
+                # never a violation: the path left the supported subset -> undecided
+                self.run.ob(f"{label}/outside-subset", core.UNKNOWN, "pyvc", detail=f"{e} (path {ctx.trace})")
         return n
 
 
@@ -463,6 +477,7 @@ class Ctx:
         self.solver.set("timeout", interp.timeout_ms)
         self.notes = []
         self.interrupted = False
+        self.module_consts = {}
 
     # fresh symbols are named deterministically so re-execution reproduces them
     def fresh(self, base, sort="real"):
@@ -495,6 +510,19 @@ class Ctx:
         self.solver.pop()
         self.interp.solver_seconds += time.time() - t0
         return r
+
+    def model(self, extra=None, skip=("EXP", "LOG", "SQRT", "POW")):
+        """Witness for the current path (plus extra), as {name: value-string}; {} if none."""
+        self.solver.push()
+        try:
+            if extra is not None:
+                self.solver.add(extra)
+            if self.solver.check() != z3.sat:
+                return {}
+            m = self.solver.model()
+            return {str(d): str(m[d]) for d in m.decls() if not str(d).startswith(skip)}
+        finally:
+            self.solver.pop()
 
     def feasible(self, cond):
         r = self._check(cond)
@@ -1662,6 +1690,11 @@ class Exec:
             return f._pv_call(self, *args, **kwargs)
         if f is None:
             raise PyRaise(make_exc(self.interp, "TypeError", "'NoneType' object is not callable"))
+        owner = getattr(f, "__self__", None)
+        if owner is not None and (is_z3(owner) or isinstance(owner, (int, float))) and f.__name__.startswith("__"):
+            # dunder method of a plain number, e.g. (-x).__radd__(y)
+            return self.binop({"__radd__": ast.Add, "__add__": ast.Add, "__rsub__": ast.Sub, "__rmul__": ast.Mult,
+                               "__mul__": ast.Mult}[f.__name__], *((args[0], owner) if f.__name__.startswith("__r") else (owner, args[0])))
         raise OutsideSubset(f"call of {f!r} in {self.qual}")
 
     def instantiate(self, cls, args, kwargs):
